@@ -208,8 +208,15 @@ def gen_case(rng, cfg, cid):
         sel = [('var', v) for v in chosen]
         ent = len(sel) == 1 and rng.random() < 0.5
     if cfg.select_terms and rng.random() < cfg.select_terms:
-        v = rng.choice(sel)
-        sel = sel + [('attr', rng.choice(['a', 'b']), v)]
-        ent = False
+        # a selected attribute expression: of a selected variable (next to it, or INSTEAD of it) or of a variable that
+        # is not selected at all
+        v = ('var', rng.choice(ids))
+        term = ('attr', rng.choice(['a', 'b']), v)
+        if v in sel and rng.random() < 0.5:
+            sel = [term if t == v else t for t in sel]
+        else:
+            sel = sel + [term]
+            rng.shuffle(sel)
+        ent = len(sel) == 1 and rng.random() < 0.5
     return {'id': cid, 'classes': classes, 'objs': objs, 'vars': vars_, 'quant': cfg.quant,
             'sel': sel, 'cond': cond, 'entity': ent}
